@@ -766,4 +766,201 @@ theorem cmp_transfer {c : FC} {F : Fmt} (h : FCok c F) (u D τ j tail : Nat)
     rw [eR2'] at b2
     constructor <;> constructor <;> intro _ <;> omega
 
+/-! ## the decimal value as a scaled fraction; the core of `bhcomp` -/
+
+/-- `N · 10^E` in units of `2^-qexp` is `dNum / dDen` -/
+def dNum (F : Fmt) (N : Nat) (E : Int) : Nat := N * 10 ^ E.toNat * 2 ^ F.qexp
+def dDen (E : Int) : Nat := 10 ^ (-E).toNat
+/-- the specification: bits of the value of format `F` nearest to `N · 10^E` (ties to even), `infBits` on overflow -/
+def roundDec (F : Fmt) (N : Nat) (E : Int) : Nat := clampInf F (roundMag F (dNum F N E) (dDen E))
+
+theorem dDen_pos (E : Int) : 0 < dDen E := Nat.pos_of_ne_zero (by simp [dDen])
+
+/-- `a/bb` lies strictly between the midpoint below `b` and the midpoint above `b + 1` -/
+def NearBelow (F : Fmt) (b a bb : Nat) : Prop :=
+  (b = 0 ∨ (magOfBits F (b - 1) + magOfBits F b) * bb < 2 * a) ∧
+  2 * a < (magOfBits F (b + 1) + magOfBits F (b + 2)) * bb
+
+theorem clampInf_of_le (F : Fmt) (r : Nat) (h : r ≤ F.infBits) : clampInf F r = r := by
+  unfold clampInf; split <;> omega
+
+theorem near_le (F : Fmt) (hmb : 1 ≤ F.mbits) (a bb b : Nat) (hbb : 0 < bb) (hn : NearBelow F b a bb) :
+    roundMag F a bb ≤ b + 1 := by
+  rw [roundMag_of_near F hmb a bb b hbb hn.1 hn.2]
+  split
+  · omega
+  · split
+    · omega
+    · split <;> omega
+
+/-- the core of `bhcomp`: significant digits `sig` (first one non-zero) at decimal exponent `E` -/
+theorem atof_core {c : FC} {F : Fmt} (h : FCok c F) (sig : Bytes) (hsd : IsDigits sig)
+    (hhead : ∀ d r, sig = d :: r → d ≠ 0x30) (hne : sig ≠ []) (E : Int) (b : Nat) (hb : b < F.infBits)
+    (hz : c.maxDigits - 1 < sig.length → 0 < natOfDigits (sig.drop (c.maxDigits - 1)))
+    (hnear : NearBelow F b (dNum F (natOfDigits sig) E) (dDen E)) :
+    (if E + (sig.length : Int) - (min c.maxDigits sig.length : Nat) ≥ 0 then
+        largeAtof c (if c.maxDigits - 1 < sig.length then natOfDigits (sig.take (c.maxDigits - 1)) * 10 + 1
+                     else natOfDigits sig) (E + (sig.length : Int) - (min c.maxDigits sig.length : Nat))
+      else smallAtof c (if c.maxDigits - 1 < sig.length then natOfDigits (sig.take (c.maxDigits - 1)) * 10 + 1
+                     else natOfDigits sig) (E + (sig.length : Int) - (min c.maxDigits sig.length : Nat)) b) =
+      roundDec F (natOfDigits sig) E := by
+  have hmaxd := h.maxd
+  have hmb1 := h.mb1
+  obtain ⟨K, hK⟩ : ∃ K, K = c.maxDigits - 1 := ⟨_, rfl⟩
+  have hK1 : 1 ≤ K := by omega
+  have hmaxK : c.maxDigits = K + 1 := by omega
+  rw [← hK] at hz ⊢
+  rw [hmaxK]
+  -- N > 0
+  obtain ⟨d0, r0, hsig⟩ : ∃ d r, sig = d :: r := by
+    cases sig with
+    | nil => exact absurd rfl hne
+    | cons d r => exact ⟨d, r, rfl⟩
+  have hNge : 10 ^ r0.length ≤ natOfDigits sig := by rw [hsig]; exact natOfDigits_ge d0 r0 (hsig ▸ hsd) (hhead d0 r0 hsig)
+  have hNpos : 0 < natOfDigits sig := Nat.lt_of_lt_of_le (Nat.pos_of_ne_zero (by simp)) hNge
+  generalize hN : natOfDigits sig = N at *
+  by_cases hlen : K < sig.length
+  · -- more digits than are read: truncation with a sticky digit
+    obtain ⟨j, hj⟩ : ∃ j, sig.length = K + j ∧ 1 ≤ j := ⟨sig.length - K, by omega, by omega⟩
+    have htk : (sig.take K).length = K := by rw [List.length_take]; omega
+    have hdr : (sig.drop K).length = j := by rw [List.length_drop]; omega
+    have hsplit : N = natOfDigits (sig.take K) * 10 ^ j + natOfDigits (sig.drop K) := by
+      rw [← hN]; conv_lhs => rw [← List.take_append_drop K sig]
+      rw [natOfDigits_append, hdr]
+    have htail2 : natOfDigits (sig.drop K) < 10 ^ j := by
+      have := natOfDigits_lt (sig.drop K) (isDigits_drop hsd K); rwa [hdr] at this
+    have htail1 := hz hlen
+    have hDge : 10 ^ (K - 1) ≤ natOfDigits (sig.take K) := by
+      obtain ⟨K', hK'⟩ : ∃ K', K = K' + 1 := ⟨K - 1, by omega⟩
+      have htake : sig.take K = d0 :: r0.take K' := by rw [hsig, hK', List.take_succ_cons]
+      have := natOfDigits_ge d0 (r0.take K') (htake ▸ isDigits_take hsd K) (hhead d0 r0 hsig)
+      rw [htake]
+      have hl : (r0.take K').length = K' := by
+        rw [List.length_take]; rw [hsig, List.length_cons] at hj; omega
+      rw [hl] at this
+      rw [hK']; simpa using this
+    generalize natOfDigits (sig.take K) = D at *
+    generalize natOfDigits (sig.drop K) = tail at *
+    have hmin : min (K + 1) sig.length = K + 1 := by omega
+    rw [if_pos hlen, hmin]
+    have hsc : E + (sig.length : Int) - ((K + 1 : Nat) : Int) = E + j - 1 := by rw [hj.1]; push_cast; omega
+    rw [hsc]
+    have h10K : 10 ^ K = 10 ^ (K - 1) * 10 := by
+      have : K = (K - 1) + 1 := by omega
+      conv_lhs => rw [this, Nat.pow_succ]
+    have hbig := h.tenbig
+    rw [← hK] at hbig
+    unfold roundDec
+    by_cases hsg : E + (j : Int) - 1 ≥ 0
+    · -- both overflow
+      rw [if_pos hsg, largeAtof_eq h _ _ (by omega) hsg]
+      have hov1 : F.infBits ≤ roundMag F ((D * 10 + 1) * 10 ^ (E + (j : Int) - 1).toNat * 2 ^ F.qexp) 1 := by
+        apply roundMag_overflow_of_ge h _ _ Nat.one_pos
+        rw [Nat.mul_one]
+        have hp : 1 ≤ 10 ^ (E + (j : Int) - 1).toNat := Nat.one_le_pow _ _ (by decide)
+        have h1 : 10 ^ K ≤ (D * 10 + 1) * 10 ^ (E + (j : Int) - 1).toNat := by
+          calc 10 ^ K = 10 ^ (K - 1) * 10 := h10K
+            _ ≤ D * 10 := Nat.mul_le_mul_right _ hDge
+            _ ≤ (D * 10 + 1) * 1 := by omega
+            _ ≤ (D * 10 + 1) * 10 ^ (E + (j : Int) - 1).toNat := Nat.mul_le_mul_left _ hp
+        calc 2 ^ (F.mbits + 1) * 2 ^ (2 ^ F.ebits - 3) ≤ 10 ^ K * 2 ^ F.qexp := hbig
+          _ ≤ (D * 10 + 1) * 10 ^ (E + (j : Int) - 1).toNat * 2 ^ F.qexp := Nat.mul_le_mul_right _ h1
+      have hov2 : F.infBits ≤ roundMag F (dNum F N E) (dDen E) := by
+        apply roundMag_overflow_of_ge h _ _ (dDen_pos E)
+        unfold dNum dDen
+        -- N ≥ 10^(K-1) · 10^j
+        have hNbig : 10 ^ (K - 1) * 10 ^ j ≤ N := by
+          rw [hsplit]
+          have := Nat.mul_le_mul_right (10 ^ j) hDge
+          omega
+        by_cases hE : 0 ≤ E
+        · have : (-E).toNat = 0 := by omega
+          rw [this, Nat.pow_zero, Nat.mul_one]
+          have hp : 1 ≤ 10 ^ E.toNat := Nat.one_le_pow _ _ (by decide)
+          have h1 : 10 ^ K ≤ N * 10 ^ E.toNat := by
+            calc 10 ^ K = 10 ^ (K - 1) * 10 ^ 1 := by rw [h10K]
+              _ ≤ 10 ^ (K - 1) * 10 ^ j := Nat.mul_le_mul_left _ (Nat.pow_le_pow_right (by decide) hj.2)
+              _ ≤ N := hNbig
+              _ = N * 1 := by omega
+              _ ≤ N * 10 ^ E.toNat := Nat.mul_le_mul_left _ hp
+          calc 2 ^ (F.mbits + 1) * 2 ^ (2 ^ F.ebits - 3) ≤ 10 ^ K * 2 ^ F.qexp := hbig
+            _ ≤ N * 10 ^ E.toNat * 2 ^ F.qexp := Nat.mul_le_mul_right _ h1
+        · have hEt : E.toNat = 0 := by omega
+          rw [hEt, Nat.pow_zero, Nat.mul_one]
+          obtain ⟨e, he⟩ : ∃ e : Nat, (-E).toNat = e ∧ e + 1 ≤ j := ⟨(-E).toNat, rfl, by omega⟩
+          rw [he.1]
+          have h1 : 10 ^ K * 10 ^ e ≤ N := by
+            calc 10 ^ K * 10 ^ e = 10 ^ (K - 1) * 10 ^ (e + 1) := by rw [h10K, Nat.pow_succ]; ring
+              _ ≤ 10 ^ (K - 1) * 10 ^ j := Nat.mul_le_mul_left _ (Nat.pow_le_pow_right (by decide) he.2)
+              _ ≤ N := hNbig
+          calc 2 ^ (F.mbits + 1) * 2 ^ (2 ^ F.ebits - 3) * 10 ^ e ≤ 10 ^ K * 2 ^ F.qexp * 10 ^ e :=
+                Nat.mul_le_mul_right _ hbig
+            _ = 10 ^ K * 10 ^ e * 2 ^ F.qexp := by ring
+            _ ≤ N * 2 ^ F.qexp := Nat.mul_le_mul_right _ h1
+      unfold clampInf
+      rw [if_neg (by omega), if_neg (by omega)]
+    · -- below one: compare with the midpoints, which see `D` only
+      rw [if_neg hsg]
+      obtain ⟨τ, hτ⟩ : ∃ τ : Nat, -(E + (j : Int)) = τ := ⟨(-(E + (j : Int))).toNat, by omega⟩
+      have hs1 : (-(E + (j : Int) - 1)).toNat = τ + 1 := by omega
+      have hs2 : (-E).toNat = τ + j := by omega
+      have hEt : E.toNat = 0 := by omega
+      have hd0 : dNum F N E = (D * 10 ^ j + tail) * 2 ^ F.qexp := by
+        unfold dNum; rw [hEt, hsplit]; simp
+      have hdd : dDen E = 10 ^ (τ + j) := by unfold dDen; rw [hs2]
+      rw [hd0, hdd] at hnear ⊢
+      have e10 : D * 10 + 1 = 10 * D + 1 := by ring
+      rw [e10]
+      have hKK : c.maxDigits - 1 - 1 = K - 1 := by omega
+      have tr := fun u => cmp_transfer h u D τ j tail (by rw [hKK]; exact hDge) htail1 htail2
+      have near' : NearBelow F b ((10 * D + 1) * 2 ^ F.qexp) (10 ^ (τ + 1)) := by
+        constructor
+        · rcases Nat.eq_zero_or_pos b with hb0 | hbp
+          · left; exact hb0
+          · right
+            have hlo : (magOfBits F (b - 1) + magOfBits F b) * 10 ^ (τ + j) < 2 * ((D * 10 ^ j + tail) * 2 ^ F.qexp) := by
+              rcases hnear.1 with h0 | hlo
+              · omega
+              · exact hlo
+            have hb1 : b - 1 + 1 = b := by omega
+            have := (tr (b - 1)).1
+            rw [hb1] at this
+            exact this.1 hlo
+        · exact ((tr (b + 1)).2).1 hnear.2
+      rw [smallAtof_eq h _ _ b (by omega) hb (by rw [hs1]; exact near'.1) (by rw [hs1]; exact near'.2), hs1,
+        clampInf_of_le _ _ (by have := near_le F hmb1 _ _ b (Nat.pos_of_ne_zero (by simp)) hnear; omega),
+        roundMag_of_near F hmb1 _ _ b (Nat.pos_of_ne_zero (by simp)) near'.1 near'.2,
+        roundMag_of_near F hmb1 _ _ b (Nat.pos_of_ne_zero (by simp)) hnear.1 hnear.2]
+      have t1 := (tr b).1
+      have t2 := (tr b).2
+      by_cases c1 : 2 * ((D * 10 ^ j + tail) * 2 ^ F.qexp) < (magOfBits F b + magOfBits F (b + 1)) * 10 ^ (τ + j)
+      · rw [if_pos c1, if_pos (t2.1 c1)]
+      · rw [if_neg c1, if_neg (fun hh => c1 (t2.2 hh))]
+        by_cases c2 : (magOfBits F b + magOfBits F (b + 1)) * 10 ^ (τ + j) < 2 * ((D * 10 ^ j + tail) * 2 ^ F.qexp)
+        · rw [if_pos c2, if_pos (t1.1 c2)]
+        · rw [if_neg c2, if_neg (fun hh => c2 (t1.2 hh))]
+  · -- every digit is read
+    have hmin : min (K + 1) sig.length = sig.length := by omega
+    rw [if_neg hlen, hmin]
+    have hsc : E + (sig.length : Int) - (sig.length : Int) = E := by omega
+    rw [hsc]
+    unfold roundDec
+    by_cases hE : E ≥ 0
+    · rw [if_pos hE, largeAtof_eq h N E hNpos hE]
+      unfold dNum dDen
+      have : (-E).toNat = 0 := by omega
+      rw [this]; rfl
+    · rw [if_neg hE]
+      have hE' : E < 0 := by omega
+      have hd0 : dNum F N E = N * 2 ^ F.qexp := by
+        unfold dNum
+        have : E.toNat = 0 := by omega
+        rw [this]; simp
+      rw [hd0] at hnear ⊢
+      unfold dDen at hnear ⊢
+      rw [smallAtof_eq h N E b hE' hb hnear.1 hnear.2]
+      rw [clampInf_of_le]
+      have := near_le F hmb1 _ _ b (Nat.pos_of_ne_zero (by simp)) hnear
+      omega
+
 end SJ.Proofs.LexBh
